@@ -202,6 +202,7 @@ impl Property for C06 {
             if replay_crash.is_some() {
                 rollover_ranges = vec![(0, effects.len())];
             }
+            let mut first_d7: Option<CaseError> = None;
             for (lo, hi) in rollover_ranges.iter().take(3) {
                 let mut selection = Selection::standard(&case.words);
                 selection.exhaustive_below = 0;
@@ -275,10 +276,20 @@ impl Property for C06 {
                             !frames.iter().any(|frame| frame.name == name && (frame.frame_type == 1 || frame.frame_type == 2))
                         });
                         if only_continuations {
-                            return fail(
+                            let shape: Result<(), CaseError> = fail(
                                 format!("file {} holds only continuation frames of an entry whose first file is gone, is older than both bounds (min = {bound}) but still exists", numbers[0]),
                                 "continuation-only-file-kept-after-crash",
                             );
+                            if env.strict {
+                                return shape;
+                            }
+                            // the search goes on behind this shape: the first instance is handed to the runner at the end
+                            // of the case (KNOWN_FINDINGS.txt decides there whether it is known)
+                            env.class("crash:d7-shape-set-aside");
+                            if first_d7.is_none() {
+                                first_d7 = shape.err();
+                            }
+                            return Ok(());
                         }
                         return fail(format!("file {} is older than both bounds (min = {bound}) but still exists", numbers[0]), "file-not-reclaimed-after-crash");
                     }
@@ -294,6 +305,10 @@ impl Property for C06 {
                 })?;
             }
             env.scratch.remove(&crash_dir);
+            if let Some(shape) = first_d7 {
+                env.scratch.remove(&dir);
+                return Err(shape);
+            }
         }
         env.scratch.remove(&dir);
         Ok(())
